@@ -10,7 +10,8 @@ GW_TRACE = {"kind": "trace", "spec": "TraceGateway", "module": "Gateway", "quick
 
 TOKEN_TRACE = {"kind": "trace", "spec": "TraceToken", "module": "Token", "quick": (8, 300), "thorough": (64, 800)}
 GAS_TRACE = {"kind": "trace", "spec": "TraceGas", "module": "GasService", "quick": (8, 300), "thorough": (64, 800)}
-ITS_TRACE = {"kind": "trace", "spec": "TraceITS", "module": "ITS", "quick": (8, 120), "thorough": (48, 400), "tlc_timeout": 3600}
+ITS_TRACE = {"kind": "trace", "spec": "TraceITS", "module": "ITS", "quick": (8, 100), "thorough": (48, 400), "tlc_timeout": 3600}
+SMALL_TRACES = [dict(t, quick=(4, 120)) for t in (GW_TRACE, TOKEN_TRACE, GAS_TRACE)] + [dict(ITS_TRACE, quick=(4, 80))]
 
 GOOD_PROOF = {"set": "s1", "sigs": ["Valid", "Valid"]}
 
@@ -110,7 +111,7 @@ def other_amount_control(e, g):
     return alts[:3] or None
 
 
-C04_NEED = ["Execute/ok", "Execute/approved", "Deliver/ok", "Deliver/is_receive_from_hub", "Deliver/hub_chain", "Deliver/hub_address",
+C04_NEED = ["Execute/ok", "Execute/approved", "Deliver/ok", "Deliver/is_receive_from_hub", "Deliver/hub_chain",
             "Deliver/decodes", "Deliver/origin_trusted", "Deliver/recipient_decodes", "Deliver/registered", "Deliver/already_deployed",
             "Deliver/metadata", "Deliver/minter_decodes", "Deliver/receiver_ok", "Deliver/custody", "SetTrusted/ok", "RemoveTrusted/ok"]
 
@@ -180,12 +181,14 @@ PROPS = {
     },
     "C08": {
         "title": "Old signer sets stay valid for exactly the configured number of rotations",
-        "policy": {"guards": ["retention", "latest_or_bypass"], "fields": [], "events": [], "rets": ["ValidateProof"]},
+        "policy": {"guards": ["retention", "latest_or_bypass"], "fields": [], "events": [], "rets": ["ValidateProof"],
+                   # "is honoured while at most the configured retention number of newer sets have been installed"
+                   "complete_actions": ["ApproveMessages", "ValidateProof"]},
         "jobs": [
             {"kind": "graph", "spec": "MC_C08", "cfg": "MC_C08_r%s" % r, "module": "Gateway", "evkinds": GW_EVENTS,
-             "need": ["ApproveMessages/ok", "RotateSigners/ok", "ValidateProof/ok"] + ([] if r == "9" else ["ApproveMessages/retention", "RotateSigners/retention"]),
+             "need": ["ApproveMessages/ok", "RotateSigners/ok", "ValidateProof/ok"] + ([] if r in ("9", "max", "max1") else ["ApproveMessages/retention", "RotateSigners/retention"]),
              "control": latest_proof_control}
-            for r in ["0", "1", "2", "9"]
+            for r in ["0", "1", "2", "9", "max", "max1"]
         ] + [GW_TRACE],
         "level_text": "TLC proves honoured <=> epoch distance <= retention for approvals, proof checks and bypass rotations and 'plain rotation only by the newest set' on every reachable state; the instance keeps the route (1..3 initial sets, plain/bypass per epoch) in its state, so a proof from every installed epoch is replayed against the real gateway after every history of <= 6 epochs, for retention 0, 1, 2 and 9.",
         "rule": "cases = transitions of the bounded TLC instances (one per retention setting) replayed against the contracts; distinct = distinct (route, action) pairs, each a proof from one installed epoch through one entry point",
@@ -206,13 +209,20 @@ PROPS = {
     },
     "C01": {
         "title": "Approvals need threshold-weight signatures from a live signer set",
-        "policy": {"guards": ["signatures", "set_known"], "fields": [], "events": [], "rets": []},
+        "policy": {"guards": ["signatures", "set_known"], "fields": [], "events": [], "rets": [],
+                   # "every honestly built proof ... is accepted": a refused honest proof is charged even when the control fails too
+                   "complete_actions": ["ApproveMessages", "ValidateProof"]},
         "jobs": [
             {"kind": "graph", "spec": "MC_C01", "cfg": "MC_C01_%s" % c, "module": "Gateway", "evkinds": GW_EVENTS,
              "need": ["ApproveMessages/ok", "ApproveMessages/signatures", "ApproveMessages/set_known",
                       "ValidateProof/ok", "ValidateProof/signatures", "ValidateProof/retention"],
              "control": all_valid_control}
             for c in ["max", "unit"]
+        ] + [
+            # retention settings at the top of the u64 range ("keep old sets for ever"): every honest proof must still be accepted
+            {"kind": "graph", "spec": "MC_C01", "cfg": "MC_C01_%s" % c, "module": "Gateway", "evkinds": GW_EVENTS,
+             "need": ["ApproveMessages/ok", "ValidateProof/ok"], "control": all_valid_control, "quick_edges": 3000}
+            for c in ["rmax", "rmax1"]
         ] + [GW_TRACE],
         "level_text": "TLC proves soundness (accepted => retained set and valid weight >= threshold), completeness (honest sufficient subset => accepted) and the frame rule on every reachable state; every transition - all 8^n signature-tag vectors for every installed set, nine single tamperings of the declared set, claimed sets latest/retained/expired/unknown - is executed against the real gateway with signatures and digests built by the harness's own recipe (sha3 Keccak, ed25519-dalek), on the u128 lattice (threshold = total = u128::MAX) and in unit weights.",
         "rule": "cases = transitions of the two bounded TLC instances replayed against the contracts; distinct = distinct (pre-state, entry point, declared set, tag vector) tuples",
@@ -321,6 +331,7 @@ PROPS = {
              "need": ["Encode/ok", "Encode/encodable", "Decode/ok", "DecodeMut/ok", "DecodeMut/canonical"]},
             # the harness's own codec (used by the ITS binding) is held to the same TLC verdicts: a mismatch is a tool error
             {"kind": "graph", "spec": "MC_C10", "cfg": "MC_C10_quick", "module": "AbiOwn", "suffix": "_own", "selfcheck": True, "max_len": 400},
+            {"kind": "codec", "spec": "TraceAbi", "module": "Abi", "quick": 4000, "thorough": 60000},
             {"kind": "graph", "spec": "MC_C10", "cfg": "MC_C10_thorough", "module": "Abi", "tiers": ["thorough"], "max_len": 400,
              "tlc_timeout": 7200, "need": ["Encode/ok", "Decode/ok", "DecodeMut/ok", "DecodeMut/canonical"]},
         ],
@@ -335,11 +346,11 @@ PROPS = {
                    "fields": ["reg", "regTok", "tokMeta", "minters", "tokOwner", "tokSelfId", "idcheck", "bal"],
                    "invariants": ["ServiceCanMint"], "events": ["token_id_claimed"], "rets": ["DeployInterchainToken", "RegisterCanonical"]},
         "jobs": [
-            {"kind": "graph", "spec": "MC_C11", "cfg": "MC_C11_small", "tiers": ["quick"], "module": "ITS", "evkinds": ITS_EVENTS,
+            {"kind": "graph", "spec": "MC_C11", "cfg": "MC_C11_small_dev", "design_cfg": "MC_C11_small", "tiers": ["quick"], "module": "ITS", "evkinds": ITS_EVENTS,
              "need": ["DeployInterchainToken/ok", "DeployInterchainToken/already_deployed", "DeployInterchainToken/metadata",
                       "RegisterCanonical/ok", "RegisterCanonical/already_registered", "Deliver/ok", "Deliver/already_deployed"],
              "control": sibling_control(["name", "caller", "auth"], "salt"), "quick_edges": 12000, "max_len": 40, "workers": 12},
-            {"kind": "graph", "spec": "MC_C11", "cfg": "MC_C11_full", "tiers": ["thorough"], "module": "ITS", "evkinds": ITS_EVENTS,
+            {"kind": "graph", "spec": "MC_C11", "cfg": "MC_C11_full_dev", "design_cfg": "MC_C11_full", "tiers": ["thorough"], "module": "ITS", "evkinds": ITS_EVENTS,
              "need": ["DeployInterchainToken/ok", "DeployInterchainToken/already_deployed", "DeployInterchainToken/metadata",
                       "RegisterCanonical/ok", "RegisterCanonical/already_registered", "Deliver/ok", "Deliver/already_deployed"],
              "control": sibling_control(["name", "caller", "auth"], "salt"), "quick_edges": 12000, "max_len": 40, "workers": 12},
@@ -356,9 +367,9 @@ PROPS = {
                    "fields": [], "act_fields": {"Execute": ["*"], "Deliver": ["*"]},
                    "events": ["delivery_executed", "transfer_received", "token_executed"], "rets": []},
         "jobs": [
-            {"kind": "graph", "spec": "MC_C04", "cfg": "MC_C04_small", "tiers": ["quick"], "module": "ITS", "evkinds": ITS_EVENTS,
+            {"kind": "graph", "spec": "MC_C04", "cfg": "MC_C04_small_dev", "design_cfg": "MC_C04_small", "tiers": ["quick"], "module": "ITS", "evkinds": ITS_EVENTS,
              "need": C04_NEED, "control": conforming_delivery_control, "quick_edges": 12000, "max_len": 40, "workers": 16},
-            {"kind": "graph", "spec": "MC_C04", "cfg": "MC_C04_full", "tiers": ["thorough"], "module": "ITS", "evkinds": ITS_EVENTS,
+            {"kind": "graph", "spec": "MC_C04", "cfg": "MC_C04_full_dev", "design_cfg": "MC_C04_full", "tiers": ["thorough"], "module": "ITS", "evkinds": ITS_EVENTS,
              "need": C04_NEED, "control": conforming_delivery_control, "max_len": 40, "workers": 16, "tlc_timeout": 3600},
             ITS_TRACE,
         ],
@@ -368,7 +379,7 @@ PROPS = {
     },
     "C05": {
         "title": "Interchain transfers conserve value and announce exactly what was taken",
-        "policy": {"guards": ["positive_amount", "balance", "custody", "destination_trusted", "registered", "gas_positive", "gas_balance", "its_can_mint", "receiver_ok"],
+        "policy": {"guards": ["positive_amount", "balance", "custody", "destination_trusted", "registered", "gas_positive", "gas_balance", "its_can_mint", "receiver_ok", "decodes"],
                    "fields": ["bal", "gas"], "invariants": ["NonNegative"], "events": ["contract_called", "gas_paid", "transfer_received", "token_executed"], "rets": []},
         "jobs": [
             {"kind": "graph", "spec": "MC_C05", "cfg": "MC_C05_small", "tiers": ["quick"], "module": "ITS", "evkinds": ITS_EVENTS,
@@ -418,7 +429,7 @@ PROPS = {
             {"kind": "graph", "spec": "MC_C15", "cfg": "MC_C15_%s" % t, "module": "Upgrade", "evkinds": ["upgraded", "ownership_transferred"],
              "need": ["Upgrade/ok", "Upgrade/role_auth", "Migrate/ok", "Migrate/role_auth", "UpgraderUpgrade/upgrade_auth", "UpgraderUpgrade/migrate_auth", "TransferOwnership/ok"]}
             for t in ["gateway", "gas", "operators", "its", "token"]
-        ] + [GW_TRACE, TOKEN_TRACE, GAS_TRACE, ITS_TRACE],
+        ] + SMALL_TRACES,
         "level_text": "TLC proves 'succeeds only with the current holder among the authorisers; the role moves only by the holder's transfer and then belongs to the named successor; refused calls change nothing' on every transition of ten finite instances (gateway, gas service, operators, token, token service; upgrade / migrate / Upgrader on each of the five production contracts): every administrative entry point x every principal as sole authoriser (current holder, former holder, holder of another role, beneficiary, stranger) and nobody x every role-transfer history over three addresses. All transitions are executed against the real contracts with exactly the stated principal's authorisation entry installed.",
         "rule": "cases = transitions of the bounded TLC instances replayed against the contracts; distinct = distinct (role state, entry point, authoriser) tuples",
         "assumptions": ["soroban-env-host test mode implements require_auth as on chain; an authorisation entry is installed only for the named principal and only for the exact call tree"],
@@ -440,7 +451,7 @@ PROPS = {
             {"kind": "graph", "spec": "MC_C17", "module": "Operators", "suffix": "_c07",
              "evkinds": ["probe_call", "operator_added", "operator_removed", "ownership_transferred"],
              "need": ["Execute/ok", "Execute/named_auth"]},
-            GW_TRACE, TOKEN_TRACE, GAS_TRACE, ITS_TRACE,
+        ] + SMALL_TRACES + [
         ],
         "level_text": "TLC proves 'a successful spending / burning / gas-paying / sending / consuming / deploying / executing call carries the authorisation of the address it names (or that address is the calling contract); refused calls change nothing' on every transition of five finite instances (token, gas service, gateway, token service + example app, operators): every such entry point x authoriser in {the named address, the counterparty or recipient, the contract owner, a stranger, nobody}, in states with and without allowances / registrations. All transitions are executed against the real contracts with exactly the stated principal's authorisation entries (full call trees) installed.",
         "rule": "cases = transitions of the bounded TLC instances replayed against the contracts; distinct = distinct (state, entry point, authoriser) tuples",
